@@ -65,6 +65,12 @@ type Result struct {
 	Discarded        int       `json:"shots_discarded_as_overflow,omitempty"`
 	DiscardedOverlap int       `json:"shots_discarded_in_rounds_with_overlapping_shots,omitempty"`
 	File             string    `json:"file,omitempty"`
+	// storms of discarded shots: when (ms after the run began) the last round's storm began and ended, and in how many
+	// rounds it went on across the 1 s mark, at which the aggregators flush their buffers for the first time
+	StormFromMs      int64 `json:"storm_of_discarded_shots_from_ms,omitempty"`
+	StormToMs        int64 `json:"storm_of_discarded_shots_to_ms,omitempty"`
+	StormAcrossFlush int   `json:"storms_across_the_periodic_flush,omitempty"`
+	ElapsedMs        int64 `json:"run_ms,omitempty"`
 }
 
 const (
@@ -141,10 +147,25 @@ func runRound(c Case, res *Result) {
 	logCore, logs := observer.New(zapcore.WarnLevel)
 	eng := engine.New(zap.New(logCore), m, conf)
 	var runErr error
+	if c.storm() {
+		pp.mark = int64(c.Behind.certain())
+	}
+	t0 := time.Now()
 	ok, stacks := vf.Deadline(90*time.Second, func() {
 		runErr = eng.Run(context.Background())
 		eng.Wait()
 	})
+	res.ElapsedMs = time.Since(t0).Milliseconds()
+	if from, to, ok := pp.span(t0); ok {
+		res.StormFromMs, res.StormToMs = from.Milliseconds(), to.Milliseconds()
+		// the aggregators flush every second, counted from the start of the pool
+		for mark := time.Second; mark < to; mark += time.Second {
+			if from < mark-20*time.Millisecond && to > mark+20*time.Millisecond {
+				res.StormAcrossFlush++
+				break
+			}
+		}
+	}
 	if !ok {
 		viol.add("the pool run did not finish within 90s (normal: well under a second)\n%s", stacks)
 		return
@@ -636,6 +657,25 @@ func label(c Case, o *vf.Obs, res *Result) {
 	o.ClassIf(res.DiscardedOverlap > 0, "shots_discarded_and_shots_overlap")
 	o.ClassIf(res.Discarded > 0 && c.Plain != nil && c.Plain.Format == "grpcjson", "shots_discarded_with_pooled_ammo")
 	o.ClassIf(res.Discarded > res.Rounds*c.certainDiscards(), "shots_discarded_beyond_the_certain_ones_stalled_machine")
+	if p := c.Plain; p != nil && p.BodyKiB > 0 {
+		// other instances acquire (the provider goroutine decodes further entries) while a request that is mostly still in the
+		// ammo's memory is being sent
+		o.ClassIf(overlap, "big_body_shots_overlap")
+		o.ClassIf(overlap && !p.Preload, "big_body_shots_overlap_streamed_"+p.Format)
+		o.ClassIf(overlap && !p.Preload && p.Entries > 1, "big_body_shots_overlap_streamed_differing_entries")
+	}
+	o.ClassIf(res.ElapsedMs >= 1000, "run_longer_than_flush_period")
+	o.ClassIf(c.Agg == "phout" && c.QueueSize > 0, fmt.Sprintf("phout_sample_queue_%d", c.QueueSize))
+	o.ClassIf(c.Agg == "phout" && c.QueueSize > 0 && overlap, "phout_small_queue_and_shots_overlap")
+	if c.storm() {
+		across := res.StormAcrossFlush > 0
+		o.ClassIf(across, "discards_reported_across_periodic_flush")
+		o.ClassIf(across && c.Agg == "phout", "discards_reported_across_periodic_flush_phout")
+		o.ClassIf(across && c.Agg == "phout" && c.QueueSize > 0, "discards_reported_across_periodic_flush_phout_small_queue")
+		o.ClassIf(across && c.Agg == "phout" && c.QueueSize > 0, fmt.Sprintf("discards_reported_across_periodic_flush_phout_queue_%d", c.QueueSize))
+		o.ClassIf(across && c.Agg == "jsonlines", "discards_reported_across_periodic_flush_jsonlines")
+		o.Note("storm_ms", []int64{res.StormFromMs, res.StormToMs})
+	}
 	if len(res.Logged) > 0 {
 		o.Note("warnings_logged", res.Logged)
 	}
